@@ -194,8 +194,10 @@ def run(tier, seed, prop=PROP, harness=None):
     dev = []
     for cfg in CONFIGS[tier]:
         explore.bfs(h, cfg, DEPTH[tier], col, seed=seed, result=res, merge_all=(tier == 'thorough'))
-        st = explore.deviations(h, cfg, DEVK[tier], 45, col)
-        dev.append({'cfg': cfg, 'executions': st['executions'], 'events': st['events'], 'k': st['k']})
+        for kind in ('coop', 'silent', 'refuse'):
+            kk, win = (2, 8) if (tier == 'quick' and kind != 'coop') else (DEVK[tier], None)
+            st = explore.deviations(h, cfg, kk, 45, col, script_kw={'kind': kind}, window=win)
+            dev.append({'cfg': cfg, 'script': kind, 'executions': st['executions'], 'events': st['events'], 'k': st['k'], 'window': st['window']})
     explore.close_pool()
     n_new, n_known, summary = col.finish('e1-history')
     cov = {
